@@ -54,17 +54,20 @@ Remove(c, k) ==
   /\ hist' = Append(hist, [op |-> "remove", c |-> c, k |-> k, ret |-> store[c][k]])
   /\ UNCHANGED <<alive, dropped, nxt, viol>>
 
-DropCo(c) ==
+\* the coroutine is dropped - in the ordinary way, or while its thread unwinds from a panic (the frame that owns it
+\* is being torn down). Named deviation "skip_when_panicking" (seeded/C25-2): the destructor returns early while the
+\* thread is panicking, and what is still stored is never dropped.
+DropCo(c, unwinding) ==
   /\ Go /\ alive[c]
   /\ alive' = [alive EXCEPT ![c] = FALSE]
   /\ LET ids == {store[c][k].id : k \in Keys} \ {0} IN
-     /\ dropped' = IF "no_drop" \in Deviations THEN dropped
+     /\ dropped' = IF "no_drop" \in Deviations \/ (unwinding /\ "skip_when_panicking" \in Deviations) THEN dropped
                    ELSE [i \in DOMAIN dropped |-> IF i \in ids THEN dropped[i] + 1 ELSE dropped[i]]
-     /\ hist' = Append(hist, [op |-> "drop_co", c |-> c, expect |-> ids])
+     /\ hist' = Append(hist, [op |-> "drop_co", c |-> c, expect |-> ids, unwinding |-> unwinding])
   /\ store' = [store EXCEPT ![c] = [k \in Keys |-> None]]
   /\ UNCHANGED <<held, nxt, viol>>
 
-Next == \E c \in Co : DropCo(c) \/ \E k \in Keys : Put(c, k) \/ Get(c, k) \/ GetMut(c, k) \/ Remove(c, k)
+Next == \E c \in Co : (\E u \in BOOLEAN : DropCo(c, u)) \/ \E k \in Keys : Put(c, k) \/ Get(c, k) \/ GetMut(c, k) \/ Remove(c, k)
 Spec == Init /\ [][Next]_vars
 
 Stored == {store[c][k].id : c \in Co, k \in Keys} \ {0}
